@@ -244,3 +244,6 @@ for _p, _mods in BRIDGES.items():
 # speaks about state carried over several reconciles / role changes
 for _p in ("C02", "C04", "C05", "C07", "C08", "C13", "C14", "C15"):
     PROPS[_p]["streams"] = PROPS[_p]["streams"] + [("scenario_histories", 18, 180)]
+
+# "fail leads to the rollback" (C19) is the rollback of C07: its clauses count for C19 on the streams C19 runs
+PROPS["C19"]["adopt"] = list(PROPS["C19"].get("adopt", [])) + ["C07"]
